@@ -57,7 +57,7 @@ def plan(tier):
         return {"runs": 120000, "slice": 400, "budget_s": 2400,
                 "slice_timeout_s": 900}
     return {"runs": 4800, "slice": 100, "budget_s": 150,
-            "slice_timeout_s": 240}
+            "slice_timeout_s": 600}
 
 
 # --------------------------------------------------------------------------
